@@ -37,6 +37,7 @@ F_errcls = z3.Function("errcls", Val, Val, ClsS)   # class of the exception call
 F_errval = z3.Function("errval", Val, Val, Val)    # its `input_value`
 F_raised_by = z3.Function("raised_by", Val, Val)   # observers of an exception object raised by a symbolic callable
 F_raised_on = z3.Function("raised_on", Val, Val)
+F_oidx = z3.Function("origin_idx", Val, I)         # index of the loop iteration in which an exception object was raised
 F_mk = z3.Function("construct", Val, Val, Val)   # construct(factory, element-sequence)
 F_mkseq = z3.Function("built_from", Val, Val)     # the element sequence a constructed container was built from
 F_contains = z3.Function("contains", Val, Val, B)
@@ -99,8 +100,9 @@ class Registry:
             self.obj_list.append(o)
         return e[0]
 
-    def ground_facts(self):
-        """Distinctness + the real subclass relation between every pair of registered classes."""
+    def ground_facts(self, supers=None):
+        """Distinctness + the real subclass relation sub(a, b) for every registered class a and every class b that
+        occurs as a *second* argument of `sub` (all of them when `supers` is None)."""
         out = []
         cl = self.class_list
         consts = [self.classes[c] for c in cl]
@@ -108,6 +110,8 @@ class Registry:
             out.append(z3.Distinct(*consts))
         for a in cl:
             for b in cl:
+                if supers is not None and self.classes[b].get_id() not in supers:
+                    continue
                 try:
                     r = issubclass(a, b)
                 except TypeError:
@@ -121,13 +125,32 @@ class Registry:
         # re-register may have added classes; caller loops until stable
         return out
 
-    def stable_ground_facts(self):
+    def stable_ground_facts(self, supers=None):
         n = -1
         facts = []
         while n != len(self.class_list):
             n = len(self.class_list)
-            facts = self.ground_facts()
+            facts = self.ground_facts(supers)
         return facts
+
+
+def sub_supers(formulas):
+    """ids of the Cls terms used as second argument of `sub` anywhere in the formulas"""
+    out, seen, todo = set(), set(), list(formulas)
+    while todo:
+        x = todo.pop()
+        i = x.get_id()
+        if i in seen:
+            continue
+        seen.add(i)
+        if z3.is_quantifier(x):
+            todo.append(x.body())
+            continue
+        if z3.is_app(x):
+            if x.decl().name() == "sub" and x.num_args() == 2:
+                out.add(x.arg(1).get_id())
+            todo.extend(x.children())
+    return out
 
 
 def background(reg: Registry):
